@@ -689,6 +689,28 @@ func genRX(o hx.Opts, emit func(string)) {
 		}
 		emit("kind=rx msg=@3.1 calls=" + mk(0, tot) + "/" + mk(255, tot) + "/" + mk(510, tot))
 	}
+	// fresh-message_seq flood inside ONE call: every fragment opens a new reassembly buffer and none
+	// completes; the iteration cap counts reads of the call, whatever message_seq they carry, so the
+	// 257th read fails and at most 256 buffers are pending
+	for _, k := range []int{256, 257, 300, 400} {
+		var it []string
+		for i := 0; i < k; i++ {
+			it = append(it, fitem(20, 8, i, i%8, 1, "g"))
+		}
+		emit("kind=rx msg=@8.1 calls=" + strings.Join(it, "+") + "/-")
+	}
+	// … and mixed: runs of fragments of one message_seq separated by fragments of fresh ones
+	{
+		var it []string
+		for i := 0; i < 300; i++ {
+			seq := 0
+			if i%3 == 2 {
+				seq = 1000 + i
+			}
+			it = append(it, fitem(20, 300, seq, i, 1, "g"))
+		}
+		emit("kind=rx msg=@300.2 calls=" + strings.Join(it, "+") + "/-")
+	}
 	// exhaustive small: message of length n, every ordered tuple of fragments (depth d)
 	maxN, depth := 4, 3
 	if thorough {
